@@ -25,6 +25,12 @@ from . import common, gen, project
 HDR_DIRS_SPECIAL = ['include', 'inc 2', "in'c3", 'api/v$1', 'hdr-x']
 HDR_DIRS_SAFE = ['include', 'inc2', 'api/v1', 'hdr-x']
 LIB_NAMES = ['core', 'util', 'foo', 'sub/bar', 'my-lib', 'x.y', 'deep/er/baz']
+# library names with inner dots and infixes that look like the extensions of library files (the -l name a .pc file
+# carries is read back off the FILE name lib<name>.so / lib<name>.a, so the name must survive that); each with the
+# shorter name a careless reading of the file name would give (such a sibling is put next to it in some projects)
+LIB_NAMES_DOTTED = [('codec.amd64', 'codec'), ('hello.api', 'hello'), ('q.a', 'q'), ('w.so', 'w'), ('v.so.1', 'v'),
+                    ('u.lib', 'u'), ('t.dll', 't'), ('sub/x.arm', 'sub/x'), ('r.a.b', 'r'), ('s.so.a', 's.so'),
+                    ('p.a.so', 'p'), ('deep/er/n.dylib.a2', 'deep/er/n'), ('liba', 'a'), ('m..a', 'm.'), ('k.so.', 'k')]
 OPTIONS = ['-DX=a b', "-DQ='q'", '-DY=$z', '-DS="s t"', '-DP=a\\b', '-DZ=$$', '-DN=1', '-DV=a;b', '-DT=`t`', '-DU=é',
            '-DA=(1)', '-DB=a&b', '-DC=x|y', '-DE=*', '-DF=~', '-Wall', '-DG=a  b', "-DH=it's", '-DI=$(x)', '-DJ={k}']
 OPTIONS_FINDING = ['-DK=a#b', '-DL=${prefix}']
@@ -117,8 +123,24 @@ def gen_scenario(rng, combos, buildable=False, with_requires=True, findings=Fals
             hdrs.append({'id': i, 'kind': 'dir', 'path': hdr_dirs[i % len(hdr_dirs)] + ('' if i < len(hdr_dirs) else str(i))})
     names = list(LIB_NAMES)
     rng.shuffle(names)
+    nlibs = rng.choice([3, 4, 5])
+    # one or two of the libraries carry a name with an extension-like infix; half of the time the shorter sibling exists too
+    dotted = rng.sample(LIB_NAMES_DOTTED, rng.choice([1, 1, 2]))
+    special = []
+    for full, short in dotted:
+        special.append(full)
+        if rng.random() < 0.5 and short not in special:
+            special.append(short)
+    special = special[:nlibs]
+    slots = rng.sample(range(nlibs), len(special))
+    names = [n for n in names if n not in special]
+    for slot, nm in sorted(zip(slots, special)):
+        names.insert(slot, nm)
+    if rep is not None:
+        for nm in special:
+            rep.count('sys:lib-name:' + ('extension-like infix' if any(nm == f for f, _ in LIB_NAMES_DOTTED) else 'its short sibling'))
     libs = []
-    for i in range(rng.choice([3, 4, 5])):
+    for i in range(nlibs):
         # every way of making a library: static_library(), shared_library(), library(kind='dual'), library() (kind by mode)
         if i < 2 or rng.random() < 0.65:
             kind = rng.choice(['static', 'static', 'dual', 'dual', 'default'])
@@ -484,6 +506,17 @@ def observe_inproc(ip, sc, b):
         lib_rows.append([i, os.path.basename(sc['libs'][i // 3]['name']), dir_id(t.path.parent()) if t is not None else 0,
                          dir_id(f.path.parent())])
     dir_rows = [[v, json.loads(k)] for k, v in dirs.items()]
+    # the name rule itself: what the real linker reads off each library FILE the script created
+    linker = ip.env.builder('c').linker('executable')
+    lib_names = []
+    for i, o in sorted(objs_l.items()):
+        for f in o.all:
+            try:
+                got = linker._extract_lib_name(f)
+            except ValueError:
+                got = None
+            if (f.path.basename(), got) not in lib_names:
+                lib_names.append((f.path.basename(), got))
 
     def ids(f, v):
         return None if v is None else [f(o) for o in v]
@@ -530,7 +563,7 @@ def observe_inproc(ip, sc, b):
             explicit.append([1, lid(o)])
         elif not isinstance(o, PkgConfigPcFile):       # the written .pc files install themselves; not in the model
             explicit.append([2, 0])
-    return res, explicit, (hdr_rows, lib_rows, dir_rows), varsecs
+    return res, explicit, (hdr_rows, lib_rows, dir_rows), varsecs, lib_names
 
 
 def model_install_dirs(env):
@@ -583,6 +616,8 @@ def model_call(sc, rows, uw):
 
 def dec_script(name, r):
     d_str, d_opt, d_list = common.d_str, common.d_opt, common.d_list
+    if name == 'opts.extract_lib_name':
+        return d_opt(d_str, r)
     if name == 'pcinfo.explicit':
         return [list(x) for x in r]
     if name == 'pc.variables':
@@ -638,9 +673,15 @@ def stage_w_pcinfo(rep, rng, n):
             for l in sc['libs']:
                 rep.count('pcinfo:lib:%s(%s)' % (l['kind'], lib_eff(sc, l['id'])))
             try:
-                res, explicit, rows, varsecs = observe_inproc(ip, sc, ip.run(sc))
+                res, explicit, rows, varsecs, lib_names = observe_inproc(ip, sc, ip.run(sc))
             except Exception as e:         # a changed tree may raise anywhere; the model then disagrees
-                res, explicit, rows, varsecs = 'raised %s: %s' % (type(e).__name__, e), None, ([], [], []), []
+                res, explicit, rows, varsecs, lib_names = 'raised %s: %s' % (type(e).__name__, e), None, ([], [], []), [], []
+            # CcLinker._extract_lib_name on the files of this project against Misc/Options.v extract_lib_name (the
+            # function C17_libname_* speak about)
+            for base, got in lib_names:
+                rep.count('pcinfo:lib-file-name:' + ('inner dot' if '.' in base[:base.rindex('.')] else 'plain'))
+                calls.append(('opts.extract_lib_name', [base]))
+                impl.append(got)
             for c in combos:
                 rep.count('pcinfo:auto=%d,libs=%s,includes=%s' % (c[0], c[1], c[2]))
             rep.case('pcinfo:' + bfg_text(sc), True)
@@ -1016,6 +1057,22 @@ def consumer(rep, P, history=None):
             rep.fail('a consumer of package %r [uninstalled]%s does not build with %r: %s' % (r['name'], hist, flags, c.stderr[-600:]),
                      replay, classes=P.classes(r['name']))
             continue
+        # what the program is bound to: the shared object of every library of the package that has one (each f_<l> is
+        # called), and nothing of the project outside the declared closure - a library that merely has a similar name
+        # (lib<short>.so next to lib<short>.<infix>.so) must not have been picked up
+        pn = subprocess.run(['patchelf', '--print-needed', 'main'], cwd=d, capture_output=True, text=True, timeout=60)
+        needed = pn.stdout.split()
+        def so(l):
+            return 'lib%s.so' % os.path.basename(sc['libs'][l]['name'])
+        must = {so(l) for l in r['libs'] if lib_eff(sc, l) in ('shared', 'dual')}
+        may = must | {so(l) for l in r['libs_private'] if lib_eff(sc, l) in ('shared', 'dual')}
+        ours = {so(l['id']) for l in sc['libs']}
+        rep.count('sys:consumer-needed-read' + (':moved' if history else ''))
+        if pn.returncode != 0 or not must <= set(needed) or (set(needed) & ours) - may:
+            bad += 1
+            rep.fail('a consumer of package %r [uninstalled]%s is bound to %r; the shared libraries the package declares are %r '
+                     '(private: %r), flags %r' % (r['name'], hist, needed, sorted(must), sorted(may - must), flags),
+                     dict(replay, query='consumer-needed', needed=needed), classes=P.classes(r['name']))
         ldp = ':'.join(sorted({P.libdir(l['id'], False) for l in sc['libs']}))
         x = subprocess.run(['./main'], cwd=d, capture_output=True, timeout=60, env={'LD_LIBRARY_PATH': ldp, 'PATH': '/usr/bin:/bin'})
         if x.returncode != 0:
